@@ -2031,6 +2031,10 @@ bool CDNS::CdnsBlock::add_question_response_record(const QueryResponse& qr,
                             + !!qr.response_size + !!qr.response_processing_data + !!qr.query_extended
                             + !!qr.response_extended + !!qr.asn + !!qr.country_code + !!qr.round_trip_time;
 
+    // Update block statistics (they describe the Block even if this item isn't stored in it)
+    if (stats)
+        m_block_statistics = stats;
+
     if (fields == 0)
         return full() ? true : false;
 
@@ -2049,6 +2053,10 @@ bool CDNS::CdnsBlock::add_question_response_record(const QueryResponse& qr,
 bool CDNS::CdnsBlock::add_address_event_count(const GenericAddressEventCount& gaec,
                                              const boost::optional<BlockStatistics>& stats)
 {
+    // Update block statistics (they describe the Block even if this item isn't stored in it)
+    if (stats)
+        m_block_statistics = stats;
+
     // Check if Address Event Counts are buffered in this Block
     if (!(m_block_parameters.storage_parameters.storage_hints.other_data_hints & OtherDataHintsMask::address_event_counts))
         return false;
@@ -2093,6 +2101,10 @@ bool CDNS::CdnsBlock::add_address_event_count(const GenericAddressEventCount& ga
 bool CDNS::CdnsBlock::add_address_event_count(const AddressEventCount& aec,
                                              const boost::optional<BlockStatistics>& stats)
 {
+    // Update block statistics (they describe the Block even if this item isn't stored in it)
+    if (stats)
+        m_block_statistics = stats;
+
     if (!(m_block_parameters.storage_parameters.storage_hints.other_data_hints & OtherDataHintsMask::address_event_counts))
         return false;
 
@@ -2111,6 +2123,10 @@ bool CDNS::CdnsBlock::add_address_event_count(const AddressEventCount& aec,
 bool CDNS::CdnsBlock::add_malformed_message(const GenericMalformedMessage& gmm,
                                             const boost::optional<BlockStatistics>& stats)
 {
+    // Update block statistics (they describe the Block even if this item isn't stored in it)
+    if (stats)
+        m_block_statistics = stats;
+
     // Check if Malformed messages are buffered in this Block
     if (!(m_block_parameters.storage_parameters.storage_hints.other_data_hints & OtherDataHintsMask::malformed_messages))
         return false;
@@ -2198,6 +2214,10 @@ bool CDNS::CdnsBlock::add_malformed_message(const MalformedMessage& mm,
 {
     std::size_t fields = !!mm.time_offset + !!mm.client_address_index + !!mm.client_port
                             + !!mm.message_data_index;
+
+    // Update block statistics (they describe the Block even if this item isn't stored in it)
+    if (stats)
+        m_block_statistics = stats;
 
     if (fields == 0)
         return full() ? true : false;
